@@ -141,9 +141,11 @@ struct TSession : Session
 	TSession(const F8MetaCntx& ctx, const SessionID& sid, Persister *p) : Session(ctx, sid, p) { quiet_timer(); }
 	TSession(const F8MetaCntx& ctx, const sender_comp_id& sci, Persister *p) : Session(ctx, sci, p) { quiet_timer(); }
 
+	std::atomic<unsigned long> nproc{0};
 	bool process(const f8String& from) override
 	{
 		{ std::lock_guard<std::mutex> g(om); proc.push_back(from); }
+		++nproc;
 		return Session::process(from);
 	}
 	// exactly what the repository's sample applications do (test/myfix.cpp): deliver unless enforce() objects
@@ -368,11 +370,15 @@ static Reg r_sess("sess", [](std::istringstream& is) {
 	Slot& s(it->second);
 	if (op == "in")
 	{
-		std::string hexs, chunks; is >> hexs >> chunks;
+		std::string hexs, chunks; long expect(-1); is >> hexs >> chunks >> expect;
 		std::vector<size_t> cs;
 		if (chunks != "-") { std::istringstream c(chunks); std::string t; while (std::getline(c, t, ',')) cs.push_back(strtoul(t.c_str(), nullptr, 10)); }
+		const unsigned long base(s.ses->nproc.load());
 		s.fs->feed(unhex(hexs), cs);
 		pump(s);
+		// pipelined model: reading runs ahead of processing; the caller says how many messages it expects to be handed over
+		if (expect >= 0 && s.pm == pm_pipeline)
+			for (int i(0); i < 200000 && static_cast<long>(s.ses->nproc.load() - base) < expect && !s.ses->is_shutdown(); ++i) usleep(50);
 		return observe(s);
 	}
 	if (op == "send" || op == "sendcs")
